@@ -205,6 +205,55 @@ class GhostBackend:
         self._req(k, 'rows-shape-valid', And(*ok))
         return self._rec(k, Dsize, (data,), (order, meta, Dsize))
 
+    # ---- LAPACK-backed kernels: ASSUMED contract on the values (reconstruction, isometry, ordering);
+    #      their metadata preconditions are obligations like for any other kernel ---------------------
+    def svd(self, data, meta, sizes, diagnostics=None):
+        k = 'svd'
+        ok = []
+        for (sl, D, slU, DU, slS, slV, DV) in meta:
+            dm = DU[1]
+            ok.append(And(_len(sl) == D[0] * D[1], _inb(sl, data.size), DU[0] == D[0], DV[1] == D[1], DV[0] == dm,
+                          dm >= 1, dm <= D[0], dm <= D[1], _len(slU) == D[0] * dm, _len(slS) == dm, _len(slV) == dm * D[1],
+                          _inb(slU, sizes[0]), _inb(slS, sizes[1]), _inb(slV, sizes[2])))
+        self._req(k, 'rows-shape-valid', And(*ok))
+        self._req(k, 'U-completely-written', _tiles([m[2] for m in meta], sizes[0]))
+        self._req(k, 'S-and-V-covered-without-overlap', And(_covers([m[4] for m in meta], sizes[1]), _covers([m[5] for m in meta], sizes[2])))
+        self.calls.append((k, (meta, sizes)))
+        return (GhostData(sizes[0], ('svd-U',), (data,)), GhostData(sizes[1], ('svd-S',), (data,)), GhostData(sizes[2], ('svd-V',), (data,)))
+
+    def svdvals(self, data, meta, sizeS, **kw):
+        self.calls.append(('svdvals', (meta, sizeS)))
+        return GhostData(sizeS, ('svd-S',), (data,))
+
+    def fix_svd_signs(self, Udata, Vdata, meta):
+        return (GhostData(Udata.size, ('fix-U',), (Udata,)), GhostData(Vdata.size, ('fix-V',), (Vdata,)))
+
+    def qr(self, data, meta, sizes):
+        k = 'qr'
+        ok = []
+        for (sl, D, slQ, DQ, slR, DR) in meta:
+            dm = DQ[1]
+            ok.append(And(_len(sl) == D[0] * D[1], _inb(sl, data.size), DQ[0] == D[0], DR[1] == D[1], DR[0] == dm,
+                          Or(dm == D[0], dm == D[1]), dm <= D[0], dm <= D[1], _len(slQ) == D[0] * dm, _len(slR) == dm * D[1],
+                          _inb(slQ, sizes[0]), _inb(slR, sizes[1])))
+        self._req(k, 'rows-shape-valid', And(*ok))
+        self._req(k, 'Q-completely-written', _tiles([m[2] for m in meta], sizes[0]))
+        self._req(k, 'R-covered-without-overlap', _covers([m[4] for m in meta], sizes[1]))
+        self.calls.append((k, (meta, sizes)))
+        return (GhostData(sizes[0], ('qr-Q',), (data,)), GhostData(sizes[1], ('qr-R',), (data,)))
+
+    def eigh(self, data, meta, sizes):
+        k = 'eigh'
+        ok = []
+        for (sl, D, slU, DU, slS) in meta:
+            ok.append(And(_len(sl) == D[0] * D[1], D[0] == D[1], _inb(sl, data.size), DU[0] == D[0], DU[1] == D[1],
+                          _len(slU) == D[0] * D[1], _len(slS) == D[0], _inb(slU, sizes[1]), _inb(slS, sizes[0])))
+        self._req(k, 'rows-shape-valid', And(*ok))
+        self._req(k, 'U-completely-written', _tiles([m[2] for m in meta], sizes[1]))
+        self._req(k, 'S-covered-without-overlap', _covers([m[4] for m in meta], sizes[0]))
+        self.calls.append((k, (meta, sizes)))
+        return (GhostData(sizes[0], ('eigh-S',), (data,)), GhostData(sizes[1], ('eigh-U',), (data,)))
+
     # sizes given explicitly by the metadata layer (mask kernels get their contracts in the C13 pack)
     def embed_mask(self, data, mask, meta, Dsize, axis, a_ndim):
         return self._rec('embed_mask', Dsize, (data,), (mask, meta, Dsize, axis, a_ndim))
@@ -244,6 +293,19 @@ def _len(sl):
 
 def _inb(sl, n):
     return And(0 <= sl[0], sl[0] <= sl[1], sl[1] <= n)
+
+
+def _covers(slcs, n):
+    """ formula: the intervals (any order) are pairwise disjoint, inside [0, n), and their lengths add up to n """
+    f = [_inb(sl, n) for sl in slcs]
+    for i in range(len(slcs)):
+        for j in range(i + 1, len(slcs)):
+            f.append(Or(slcs[i][1] <= slcs[j][0], slcs[j][1] <= slcs[i][0]))
+    tot = 0
+    for sl in slcs:
+        tot = tot + _len(sl)
+    f.append(tot == n)
+    return And(*f)
 
 
 def _tiles(slcs, n):
